@@ -129,8 +129,15 @@ func (p *Proxy) SetAttr(name string, value Object) error {
 		if field.CanSet() {
 			if result == nil {
 				field.SetZero()
+			} else if rv := reflect.ValueOf(result); field.Kind() == reflect.Struct && rv.Kind() == reflect.Pointer {
+				// the converter of a struct-typed field works on the pointer type
+				if rv.IsNil() {
+					field.SetZero()
+				} else {
+					field.Set(rv.Elem())
+				}
 			} else {
-				field.Set(reflect.ValueOf(result))
+				field.Set(rv)
 			}
 			return nil
 		} else {
